@@ -256,7 +256,8 @@ TLCloseDone == /\ tl = "closing" /\ (Client => lk["wf"] = "free") /\ lk["rd"] = 
                /\ lk' = [lk EXCEPT !["cm"] = "free", !["wf"] = IF Client THEN "close" ELSE @, !["rd"] = "close"] /\ tl' = "exited"
                /\ U(<<closed, closing, sentClose, out, emitting, inq, pc, pingActive, pongSig, peerDid, ret, wframe, armedW, cancelled, fired>>)
 (* the peer: each of its possible moves at most once, in any order *)
-PeerAct(a, f) == /\ a \in PeerMay /\ a \notin peerDid /\ Len(inq) < 2 /\ inq' = Append(inq, f) /\ peerDid' = peerDid \cup {a}
+InqBound == 2      \* frames of the peer in flight (a bound of the exhaustive configurations; trace validation lifts it)
+PeerAct(a, f) == /\ a \in PeerMay /\ a \notin peerDid /\ Len(inq) < InqBound /\ inq' = Append(inq, f) /\ peerDid' = peerDid \cup {a}
                  /\ U(<<closed, closing, sentClose, lk, out, emitting, pc, pingActive, pongSig, ret, tl, wframe, armedW, cancelled, fired>>)
 SawOut(kind) == \E i \in 1..Len(out) : out[i].k = kind /\ out[i].part = "pay"
 (* pongs: after the ping was seen -- or, the payload being a counter the peer can guess, as soon as the Ping is registered *)
